@@ -17,7 +17,10 @@ DEFS = {"Int": -7, "Int64": -7000000000, "UInt": 7, "UInt64": 7000000000, "Bool"
 
 
 def gen_world(rng, i, tier):
-    src = rng.pick(["parsed", "parsed", "built", "merged", "layered"])
+    src = rng.pick(["parsed", "parsed", "built", "merged", "layered", "optread"])
+    optread = src == "optread"
+    if optread:
+        src = "parsed"          # the same kind of file, but read through an object that carries parsing options
     if src == "layered":
         lw = gen.gen_layered_world(rng, i, two_layer=True, small=True, allow_refuse=False)
         m = gen.model_of(lw)
@@ -80,6 +83,9 @@ def gen_world(rng, i, tier):
         for s, k, _ in sets:
             if [s, k] not in pairs:
                 pairs.append([s, k])
+    if optread and src == "parsed":
+        # exactly one file in the tree: the layered read hands out the parsed object itself, options included
+        w["optread"] = rng.pick(["JOIN_SAME_ENTRIES=1", "JOIN_SAME_ENTRIES=1", "PYTHON_STYLE=1", ""])
     w["pairs"] = pairs
     w["partner"] = rng.pick(["other", "twin"])
     w["queries"] = gen_queries(rng, pairs, tier)
@@ -170,6 +176,12 @@ def build_plans(world):
             hist_member = world["member"]
         else:
             ops.append(dict(gen.read_op(lw["read"], o=0), tag="ctor"))
+    elif world["src"] == "parsed" and world.get("optread") is not None:
+        tree.append({"t": "f", "p": "$ROOT/in.conf", "c": grammar.render(world["lines"])})       # for the twin partner
+        tree.append({"t": "f", "p": "$ROOT/od/app.conf", "c": grammar.render(world["lines"])})
+        opts = "PARSING_DIRS=$ROOT/od" + (";" + world["optread"] if world["optread"] else "")
+        ops.append({"op": "newOpts", "o": 0, "options": opts, "tag": "ctor"})
+        ops.append({"op": "readConfig", "in": 0, "o": 0, "project": None, "usr_subdir": None, "name": "app", "suffix": "conf", "delim": D, "comment": C, "tag": "ctor"})
     elif world["src"] in ("parsed", "merged"):
         tree.append({"t": "f", "p": "$ROOT/in.conf", "c": grammar.render(world["lines"])})
         ops.append({"op": "readFile", "o": 0, "path": "$ROOT/in.conf", "delim": D, "comment": C, "tag": "ctor"})
@@ -299,6 +311,8 @@ def check(world, plans, results):
         v.probe("key_defined_twice_in_a_section")
     if world.get("fd_budget"):
         v.probe("descriptor_budget_with_failing_writes")
+    if world.get("optread") is not None:
+        v.probe("object_with_parsing_options_filled_by_a_layered_read")
     if any(p[0] and p[0].startswith("[") for p in world["pairs"]):
         v.probe("bracketed_stored_section_name")
     return v
